@@ -59,6 +59,15 @@ pub struct Op {
     pub flushed: usize,
 }
 
+/// A live client on the other end of the transport: consulted whenever the server wants more
+/// input than is queued.  It is shown the server bytes flushed since the last call and returns
+/// the bytes it sends in response.
+pub trait Peer {
+    fn exchange(&mut self, server_bytes: &[u8]) -> Vec<u8>;
+    /// is the client still waiting for something from the server?
+    fn waiting(&self) -> bool;
+}
+
 pub trait Gate {
     /// Given everything flushed so far, how many inbound bytes may the client have sent?
     fn released(&mut self, flushed: &[u8]) -> usize;
@@ -77,6 +86,8 @@ pub struct TState {
     pub fault_fired_at_op: Option<usize>,
     pub reads_at_eof: usize,
     pub gate: Option<Box<dyn Gate>>,
+    pub peer: Option<Box<dyn Peer>>,
+    pub peer_fed: usize,
     pub would_block: bool,
     pub eof_seen: bool,
     pub keep_ops: bool,
@@ -103,6 +114,8 @@ impl Transport {
             fault_fired_at_op: None,
             reads_at_eof: 0,
             gate: None,
+            peer: None,
+            peer_fed: 0,
             would_block: false,
             eof_seen: false,
             keep_ops: true,
@@ -177,6 +190,17 @@ impl Read for Transport {
         if buf.is_empty() {
             s.log(Op { kind: OpKind::Read, at, n: 0, failed: false, flushed });
             return Ok(0);
+        }
+        if s.pos >= s.inbound.len() && s.peer.is_some() {
+            // the client reacts to what has been flushed to it
+            let mut peer = s.peer.take().unwrap();
+            let produced = peer.exchange(&s.out[s.peer_fed..s.flushed]);
+            s.peer_fed = s.flushed;
+            if produced.is_empty() && peer.waiting() {
+                s.would_block = true;
+            }
+            s.inbound.extend_from_slice(&produced);
+            s.peer = Some(peer);
         }
         let end = s.avail_end();
         let left = end - s.pos;
